@@ -1,6 +1,42 @@
-(* Runner for property C17: wire arguments -> model -> wire result. Filled in by the C17 model. *)
+(* Runner for C17 and C04's recalculation: c17 invert|rit|recalc|neg <doc> *)
 From Coq Require Import ZArith List String Bool.
-From Verif Require Import Base.Wire.
+From Verif Require Import Base.Wire Calc.Doc Calc.Calc Calc.Symmetry Run.RunCalc.
 Import ListNotations.
 
-Definition run_c17 (args : list V) : list V := [verr "not-implemented"].
+Definition run_c17 (args : list V) : list V :=
+  match args with
+  | o :: d :: _ =>
+    let dd := d_doc d in
+    if is_op o "invert" then
+      match invert dd with
+      | Inverted t => [VS (bs "ok"); e_totals t]
+      | InvertMismatch t => [verr "invert"]
+      | InvertRefused => [verr "invert"]
+      end
+    else if is_op o "invert2" then
+      match as_input dd with
+      | Some d1 =>
+        match invert dd, as_input (invert_doc d1) with
+        | Inverted _, Some d2 =>
+          match calculate (invert_doc d2) with
+          | Totals t2 => [VS (bs "ok"); e_totals t2]
+          | _ => [verr "invert"]
+          end
+        | _, _ => [verr "invert"]
+        end
+      | None => [verr "invert"]
+      end
+    else if is_op o "rit" then
+      match remove_included_taxes dd with
+      | RitDone t => [VS (bs "ok"); e_totals t]
+      | RitRefused => [verr "rit"]
+      end
+    else if is_op o "recalc" then
+      match as_input dd with
+      | Some d1 => e_result (calculate d1)
+      | None => [verr "calc"]
+      end
+    else if is_op o "neg" then e_result (calculate (neg_doc dd))
+    else [verr "unknown-c17-op"]
+  | _ => [verr "unknown-c17-op"]
+  end.
